@@ -127,6 +127,10 @@ PROBE_NAMES = ['aes128-ctr', 'aes256-ctr', '3des-cbc', 'chacha20-poly1305@openss
 PROBE_NOTES = ['note-A', 'note-B', 'note-C']
 
 
+def mc_direct_lines():
+    return ('[exception] invalid ssh packet (block size)', '[exception] invalid ssh packet (length)', '[exception] packet checksum CRC32 mismatch.')
+
+
 def run(ctx):
     r = ctx.rng
     cov = Coverage('one evaluation = one multi-target run of the real main() (or one step-level execution on real threads); non-trivial = distinct (target list, threads, format, schedule); ordered pairs '
@@ -244,6 +248,40 @@ def run(ctx):
                 if by.get(ip) != mc.normalise_block(sout):
                     fail('multi_differs_from_single', {'targets': [a, b], 'threads': 2, 'forced_order': ['a' if x == ip_a else 'b' for x in order], 'target': n, 'format': 'text'},
                          {'block': (by.get(ip) or '')[:400]}, {'single': mc.normalise_block(sout)[:400]})
+    # (e) a scan that edits the rating database and then aborts (sys.exit from the packet reader during a probe reconnect) leaves nothing behind
+    eservers = dict(servers)
+    eservers.update(mc.edit_then_abort_servers())
+    elists = [['J', 'D'], ['K', 'D'], ['J', 'C', 'D'], ['D', 'J', 'D'], ['K', 'J', 'C'], ['J', 'K', 'D', 'C']]
+    for lst in elists:
+        for threads in ((1, 2, 3) if ctx.tier == 'thorough' else (1, r.choice([2, 3]))):
+            for extra in ([], ['-j']):
+                code, out, hosts, net = mc.run_targets(lst, eservers, threads=threads, extra=extra)
+                cov.add(('abort', tuple(lst), threads, tuple(extra)), True, tags=['edit-then-abort', 'threads-%d' % threads])
+                inp = {'targets': lst, 'threads': threads, 'args': extra, 'servers': 'edit_then_abort'}
+                for m_ in mc_direct_lines():
+                    out = out.replace(m_ + '\n', '')
+                for n, ip in zip(lst, hosts):
+                    if n in ('J', 'K'):
+                        continue
+                    scode, sout = mc.run_single(n, eservers, ip, extra)
+                    if extra:
+                        try:
+                            arr = json.loads(out)
+                        except Exception:
+                            arr = None      # D05-multi (C08): the aborted target's error text breaks the array; compare the element textually
+                        if arr is not None:
+                            got = [e_ for e_ in arr if isinstance(e_, dict) and e_.get('target') == '%s:22' % ip]
+                            if not got or got[0] != json.loads(sout):
+                                fail('multi_differs_from_single', dict(inp, target=n, format='json'), str(got[:1])[:300], sout[:300])
+                        elif sout.strip() not in out:
+                            fail('multi_differs_from_single', dict(inp, target=n, format='json'), out[:300], sout[:300])
+                    else:
+                        by = {mc.block_target(b): mc.normalise_block(b) for b in mc.split_text_blocks(out)}
+                        want = mc.normalise_block(sout)
+                        if by.get(ip) != want:
+                            gl, wl = (by.get(ip) or '').split('\n'), want.split('\n')
+                            fail('multi_differs_from_single', dict(inp, target=n, format='text'),
+                                 {'only_in_multi': [l for l in gl if l not in wl][:6]}, {'only_in_single': [l for l in wl if l not in gl][:6]})
     # (d) policy verdicts are per target
     d = tempfile.mkdtemp(prefix='verif_c07_')
     try:
@@ -284,17 +322,25 @@ def replay(obj):
     f = obj.get('failure', obj)
     inp = f['input']
     servers = mc.arch_servers()
+    servers.update(mc.edit_then_abort_servers())
     if 'targets' not in inp:
         print(json.dumps(f, indent=1)[:1500])
         return 0
     extra = inp.get('args', ['-j'] if inp.get('format') == 'json' else [])
     code, out, hosts, net = mc.run_targets(inp['targets'], servers, threads=inp.get('threads', 1), extra=extra)
+    for m_ in mc_direct_lines():
+        out = out.replace(m_ + '\n', '')
     bad = 0
     for n, ip in zip(inp['targets'], hosts):
+        if n in ('J', 'K'):
+            continue
         scode, sout = mc.run_single(n, servers, ip, extra)
         if extra:
-            got = [e for e in json.loads(out) if e.get('target') == '%s:22' % ip]
-            same = got and got[0] == json.loads(sout)
+            try:
+                got = [e for e in json.loads(out) if isinstance(e, dict) and e.get('target') == '%s:22' % ip]
+                same = got and got[0] == json.loads(sout)
+            except ValueError:
+                same = sout.strip() in out
         else:
             by = {mc.block_target(b): mc.normalise_block(b) for b in mc.split_text_blocks(out)}
             same = by.get(ip) == mc.normalise_block(sout)
